@@ -77,11 +77,11 @@ func (env *Env) eval(x Expr) TV {
 			if err != nil {
 				evalFail("bad int %s", n.V)
 			}
-			return TV{T: IntLit(v)}
+			return TV{T: IntLit(v), Typ: types.Typ[types.Int]}
 		}
-		return TV{T: BigLit(n.V)}
+		return TV{T: BigLit(n.V), Typ: types.Typ[types.Int]}
 	case *EBool:
-		return TV{T: BoolLit(n.V)}
+		return TV{T: BoolLit(n.V), Typ: types.Typ[types.Bool]}
 	case *EStr:
 		return TV{T: e.strLit(n.V), Typ: types.Typ[types.String]}
 	case *ENil:
@@ -128,7 +128,7 @@ func (env *Env) eval(x Expr) TV {
 		v := env.eval(n.X)
 		switch n.Op {
 		case "!":
-			return TV{T: Not(v.T)}
+			return TV{T: Not(v.T), Typ: types.Typ[types.Bool]}
 		case "-":
 			return TV{T: Neg(v.T), Typ: v.Typ}
 		}
@@ -210,13 +210,13 @@ func (e *Enc) constValTerm(o *types.Const) Term {
 func (env *Env) evalBin(n *EBin) TV {
 	switch n.Op {
 	case "&&":
-		return TV{T: And(env.evalBool(n.L), env.evalBool(n.R))}
+		return TV{T: And(env.evalBool(n.L), env.evalBool(n.R)), Typ: types.Typ[types.Bool]}
 	case "||":
-		return TV{T: Or(env.evalBool(n.L), env.evalBool(n.R))}
+		return TV{T: Or(env.evalBool(n.L), env.evalBool(n.R)), Typ: types.Typ[types.Bool]}
 	case "==>":
-		return TV{T: Implies(env.evalBool(n.L), env.evalBool(n.R))}
+		return TV{T: Implies(env.evalBool(n.L), env.evalBool(n.R)), Typ: types.Typ[types.Bool]}
 	case "<==>":
-		return TV{T: Eq(env.evalBool(n.L), env.evalBool(n.R))}
+		return TV{T: Eq(env.evalBool(n.L), env.evalBool(n.R)), Typ: types.Typ[types.Bool]}
 	}
 	l := env.eval(n.L)
 	r := env.eval(n.R)
@@ -225,20 +225,21 @@ func (env *Env) evalBin(n *EBin) TV {
 	}
 	isF := l.T.Sort == SF64
 	switch n.Op {
+	case "==", "!=", "<", "<=", ">", ">=":
+		r2 := env.evalCmp(n.Op, l, r, isF)
+		r2.Typ = types.Typ[types.Bool]
+		return r2
+	}
+	switch n.Op {
 	case "==":
 		if l.T.Sort == SStr {
 			return TV{T: env.e.strEq(l.T, r.T)}
 		}
-		if isF {
-			return TV{T: App(SBool, "fp.eq", l.T, r.T)}
-		}
+		// on floats == in a contract is identity of the value (NaN == NaN); feq(a,b) is the IEEE comparison
 		return TV{T: Eq(l.T, r.T)}
 	case "!=":
 		if l.T.Sort == SStr {
 			return TV{T: Not(env.e.strEq(l.T, r.T))}
-		}
-		if isF {
-			return TV{T: Not(App(SBool, "fp.eq", l.T, r.T))}
 		}
 		return TV{T: Ne(l.T, r.T)}
 	case "<":
@@ -290,6 +291,41 @@ func (env *Env) evalBin(n *EBin) TV {
 	}
 	evalFail("unknown operator %s", n.Op)
 	return TV{}
+}
+
+func (env *Env) evalCmp(op string, l, r TV, isF bool) TV {
+	switch op {
+	case "==":
+		if l.T.Sort == SStr {
+			return TV{T: env.e.strEq(l.T, r.T)}
+		}
+		// on floats == in a contract is identity of the value (NaN == NaN); feq(a,b) is the IEEE comparison
+		return TV{T: Eq(l.T, r.T)}
+	case "!=":
+		if l.T.Sort == SStr {
+			return TV{T: Not(env.e.strEq(l.T, r.T))}
+		}
+		return TV{T: Ne(l.T, r.T)}
+	case "<":
+		if isF {
+			return TV{T: App(SBool, "fp.lt", l.T, r.T)}
+		}
+		return TV{T: Lt(l.T, r.T)}
+	case "<=":
+		if isF {
+			return TV{T: App(SBool, "fp.leq", l.T, r.T)}
+		}
+		return TV{T: Le(l.T, r.T)}
+	case ">":
+		if isF {
+			return TV{T: App(SBool, "fp.gt", l.T, r.T)}
+		}
+		return TV{T: Gt(l.T, r.T)}
+	}
+	if isF {
+		return TV{T: App(SBool, "fp.geq", l.T, r.T)}
+	}
+	return TV{T: Ge(l.T, r.T)}
 }
 
 func (env *Env) evalField(n *EField) TV {
@@ -493,6 +529,8 @@ func (env *Env) evalCall(n *ECall) TV {
 			}
 		}
 		evalFail("lastresult: no call to %s before this point", sx.V)
+	case "wrap64":
+		return TV{T: App(SInt, "wrapmod64", arg(0).T), Typ: types.Typ[types.Int]}
 	case "runecount":
 		c := App(SInt, "rune_count", arg(0).T)
 		return TV{T: c, Typ: types.Typ[types.Int]}
@@ -518,6 +556,10 @@ func (env *Env) evalCall(n *ECall) TV {
 		}
 		e.declareFun("fn_id", []Sort{SInt}, SInt)
 		return TV{T: Eq(App(SInt, "fn_id", x.T), IntLit(int64(e.p.FuncID(fn))))}
+	case "feq":
+		return TV{T: App(SBool, "fp.eq", arg(0).T, arg(1).T), Typ: types.Typ[types.Bool]}
+	case "toint":
+		return TV{T: App(SInt, "f2i", arg(0).T), Typ: types.Typ[types.Int]}
 	case "tofloat":
 		return TV{T: App(SF64, "i2f", arg(0).T), Typ: types.Typ[types.Float64]}
 	case "isNaN":
